@@ -192,6 +192,134 @@ func vScripts() []vScript {
 			dr.opObs(w.obsBy(mem[0], d3, k3.TxHash[:]), "member")
 			dr.opObs(w.obsBy(mem[3], d3, k3.TxHash[:]), "member")
 		}},
+		{"c01-set-shrinks-between-observation-and-quorum", func(dr *vDriver, w *vWorld) {
+			// observed under a set of 7 (quorum 5); the set then shrinks to 3 (quorum 3): threshold, membership and assembly must all
+			// keep following the snapshot of 7
+			mem := members(7, 3)
+			gs := w.set(mem, 4)
+			small := w.set([]int{-1, mem[0], mem[1]}, 5)
+			dr.opClock(1000)
+			dr.opSetGS(gs)
+			k := w.msg(0)
+			d := digestOfMsg(k, 0)
+			dr.opMsg(k)
+			dr.opLoop(0)
+			dr.opObs(w.obsBy(mem[0], d, k.TxHash[:]), "member")
+			dr.opSetGS(small)
+			dr.opObs(w.obsBy(mem[1], d, k.TxHash[:]), "member")
+			dr.opObs(w.obsBy(mem[1], d, k.TxHash[:]), "member-retransmission")
+			dr.opObs(w.obsBy(mem[6], d, k.TxHash[:]), "member-of-snapshot-only")
+			dr.opObs(w.obsBy(mem[5], d, k.TxHash[:]), "member-of-snapshot-only")
+			dr.opObs(w.obsBy(mem[4], d, k.TxHash[:]), "member-of-snapshot-only")
+			// and the other direction: observed under 3, set grows to 7
+			k2 := w.msg(0)
+			d2 := digestOfMsg(k2, 0)
+			dr.opMsg(k2)
+			dr.opLoop(0)
+			dr.opSetGS(w.set(mem, 6))
+			dr.opObs(w.obsBy(mem[0], d2, k2.TxHash[:]), "member")
+			dr.opObs(w.obsBy(mem[1], d2, k2.TxHash[:]), "member")
+		}},
+		{"c01-inbound-vaa-naming-another-set-index-below-quorum", func(dr *vDriver, w *vWorld) {
+			mem := members(7, 2)
+			gs := w.set(mem, 3)
+			dr.opClock(1000)
+			dr.opSetGS(gs)
+			k := w.msg(0)
+			for _, idx := range []uint32{2, 4, 3} {
+				v := dr.vaaOfMsg(k, idx)
+				v.AddSignature(w.key(mem[1]), 1)
+				b, _ := v.Marshal()
+				dr.opInbound(b, "one-valid-signature-index-"+fmt.Sprint(idx))
+			}
+			v := dr.vaaOfMsg(k, 9)
+			for _, p := range []int{0, 1, 3, 4, 5} {
+				v.AddSignature(w.key(mem[p]), uint8(p))
+			}
+			b, _ := v.Marshal()
+			dr.opInbound(b, "quorum-of-current-set-other-index")
+		}},
+		{"c02-governance-emitter-message-for-an-already-stored-governance-vaa", func(dr *vDriver, w *vWorld) {
+			// an operator-injected governance VAA is completed and stored; a chain message from the governance emitter with the same id
+			// and a block time within the settlement window must still not be signed
+			dr.opClock(1000)
+			dr.opSetGS(w.set(members(1, 0), 0))
+			v := &vaa.VAA{Version: vaa.SupportedVAAVersion, GuardianSetIndex: 0, Timestamp: time.Unix(1700000000, 0), Nonce: 1, Sequence: 77,
+				ConsistencyLevel: 32, EmitterChain: w.govCh, EmitterAddress: w.govAddr, TargetChain: 0, Payload: w.r.bytes(40)}
+			dr.opInject(v)
+			dr.opLoop(0)
+			k := w.msg(4)
+			k.Sequence = 77
+			k.TargetChain = 0
+			k.Timestamp = time.Unix(1700000010, 0)
+			dr.opMsg(k)
+			if len(dr.pending) > 0 {
+				dr.opLoop(0)
+			}
+			k.Timestamp = time.Unix(1700000100, 0)
+			dr.opMsg(k)
+		}},
+		{"c13-duplicate-observation-for-a-settled-completed-entry", func(dr *vDriver, w *vWorld) {
+			mem := members(3, 1)
+			dr.opClock(1000)
+			dr.opSetGS(w.set(mem, 0))
+			k := w.msg(0)
+			d := digestOfMsg(k, 0)
+			T := int64(1000)
+			dr.opMsg(k)
+			dr.opLoop(0)
+			dr.opObs(w.obsBy(mem[0], d, k.TxHash[:]), "member")
+			dr.opObs(w.obsBy(mem[2], d, k.TxHash[:]), "member")
+			for _, dd := range []int64{31, 1, 30} {
+				if !tick(dr, &T, dd) {
+					return
+				}
+				if !dr.opObs(w.obsBy(mem[0], d, k.TxHash[:]), "member-retransmission") {
+					return
+				}
+			}
+			dr.opObs(w.obsBy(50, d, k.TxHash[:]), "non-member")
+			dr.opMsg(k)
+			if len(dr.pending) > 0 {
+				dr.opLoop(0)
+			}
+		}},
+		{"fault-c02-store-closed-when-quorum-is-reached", func(dr *vDriver, w *vWorld) {
+			// the store fails at the moment of quorum: the VAA is still broadcast, and it must still be broadcast only once
+			mem := members(3, 1)
+			dr.opClock(1000)
+			dr.opSetGS(w.set(mem, 0))
+			k := w.msg(0)
+			d := digestOfMsg(k, 0)
+			dr.opMsg(k)
+			dr.opLoop(0)
+			dr.h.Faults = true
+			dr.dbDown = true
+			dr.d.Close()
+			dr.opObs(w.obsBy(mem[0], d, k.TxHash[:]), "member")
+			dr.opObs(w.obsBy(mem[2], d, k.TxHash[:]), "member")
+			dr.opObs(w.obsBy(mem[0], d, k.TxHash[:]), "member-retransmission")
+			dr.opObs(w.obsBy(mem[2], d, k.TxHash[:]), "member-retransmission")
+		}},
+		{"fault-c14-request-queue-full-at-retry-time", func(dr *vDriver, w *vWorld) {
+			// the outbound re-observation queue is full when the retry is due: the request is lost (non-blocking post), the own
+			// observation must still be re-broadcast and the retry counted
+			mem := members(3, 1)
+			dr.opClock(1000)
+			dr.opSetGS(w.set(mem, 0))
+			k := w.msg(0)
+			T := int64(1000)
+			dr.opMsg(k)
+			dr.opLoop(0)
+			tick(dr, &T, 31)
+			dr.h.Faults = true
+			dr.fillReq = true
+			for i := 0; i < 3; i++ {
+				if !tick(dr, &T, 300) {
+					return
+				}
+			}
+		}},
 		{"c14-retry-schedule-of-a-pending-own-observation", func(dr *vDriver, w *vWorld) {
 			mem := members(3, 1)
 			dr.opClock(1000)
